@@ -113,6 +113,16 @@ def check_read_record(ck, rec, kinds=("str", "list")):
             te = lit(kind, rec["toend"][k])
             ck.expect(f"def k = {i}; def o = {L}; [o[k to *], o[k to *], {'substr' if kind == 'str' else 'sublist'}(o, k), k] == [{te}, {te}, {te}, {i}]",
                       ("val", True), "slice-twice")
+        if kind == "list":
+            # a slice / sublist is a NEW sequence also when it covers the whole list: editing it in place changes
+            # exactly one position of IT and leaves the list it was cut from as it was (and the other way round)
+            for a, b in ((0, "*"), (0, n), (0, n + 3), (-n - 2, "*"), (1, "*"), (0, max(n - 1, 0))):
+                ck.expect(f"def o = {L}; def t = o[{a} to {b}]; append(t, 9); insert_at(t, 0, 8); [o, length(t) - length(o[{a} to {b}])] == [{L}, 2]",
+                          ("val", True), "slice-result-independent")
+                ck.expect(f"def o = {L}; def t = o[{a} to {b}]; def u = o[{a} to {b}]; append(o, 7); [t == u, length(o)] == [TRUE, {n + 1}]",
+                          ("val", True), "slice-result-independent")
+            ck.expect(f"def o = {L}; def t = sublist(o, 0); append(t, 9); def u = sublist(o, 0, {n}); append(u, 9); o == {L}",
+                      ("val", True), "slice-result-independent")
         if kind == "str" and n:
             # what a read hands out is the element, not a handle on a shared object: changing it afterwards
             # does not change what the next read (of this or of an equal literal) returns
